@@ -80,10 +80,10 @@ def build_coq(log):
         return True, out
 
 
-def build_harness():
+def build_harness(bin_name="harness"):
     """Rebuild the Rust harness against /repo's current working tree."""
     with Lock("cargo"):
-        rc, out = sh(["cargo", "build", "--offline", "--bin", "harness"], cwd=HARNESS, timeout=3000)
+        rc, out = sh(["cargo", "build", "--offline", "--bin", bin_name], cwd=HARNESS, timeout=3000)
         return rc == 0, out
 
 
@@ -176,6 +176,15 @@ def check_assumptions(prop_id):
 
 # ------------------------------------------------------------------ running both sides
 
+def _big_stack():
+    # the extracted model is not tail recursive: give it the whole stack (ulimit -s unlimited)
+    import resource
+    try:
+        resource.setrlimit(resource.RLIMIT_STACK, (resource.RLIM_INFINITY, resource.RLIM_INFINITY))
+    except (ValueError, OSError):
+        pass
+
+
 def run_lines(binary, lines, shards=16, timeout=3000, env=None):
     """Feed protocol lines to a line-by-line filter, sharded over processes; returns outputs."""
     if not lines:
@@ -185,7 +194,7 @@ def run_lines(binary, lines, shards=16, timeout=3000, env=None):
     procs = []
     for ch in chunks:
         p = subprocess.Popen([binary], stdin=subprocess.PIPE, stdout=subprocess.PIPE,
-                             stderr=subprocess.DEVNULL, text=True, env=env or ENV)
+                             stderr=subprocess.DEVNULL, text=True, env=env or ENV, preexec_fn=_big_stack)
         procs.append(p)
     outs = []
     # write & read via communicate in threads to avoid pipe deadlock
@@ -215,8 +224,11 @@ def run_model(lines):
     return run_lines(DRIVER_BIN, lines)
 
 
+IMPL_BIN = [HARNESS_BIN]
+
+
 def run_impl(lines, env=None):
-    return run_lines(HARNESS_BIN, lines, env=env)
+    return run_lines(IMPL_BIN[0], lines, env=env)
 
 
 # ------------------------------------------------------------------ tokens (python side)
